@@ -307,7 +307,7 @@ def _classpath():
 # --------------------------------------------------------------------------
 # behaviours from -simulate file=prefix,num=N
 # --------------------------------------------------------------------------
-_STATE_HDR = re.compile(r'^\\\* <([^>]*)>\nSTATE_(\d+) == *\n', re.M)
+_STATE_HDR = re.compile(r'^\\\* <(.*)>\nSTATE_(\d+) == *\n', re.M)
 
 
 def read_behaviour_file(path):
